@@ -45,6 +45,8 @@ def _mk_wave_arg(cfg, wc, wr, rec=False):
         return wc
     if wf == 'tuple2':
         return (np.array(getattr(wc, lo)), np.array(getattr(wc, hi)))
+    if wf == 'tuple4col':            # the four filters as (L, 1) column arrays (the layout of the shipped DTCWT tables)
+        return tuple(np.array(getattr(w_, k_)).reshape(-1, 1) for w_, k_ in ((wc, lo), (wc, hi), (wr, lo), (wr, hi)))
     return (np.array(getattr(wc, lo)), np.array(getattr(wc, hi)), np.array(getattr(wr, lo)), np.array(getattr(wr, hi)))
 
 
@@ -55,7 +57,7 @@ def check_dwt_forward(cfg, sizes, rnd):
     from pytorch_wavelets.dwt.transform2d import DWTForward
     dim, mode = cfg['dim'], cfg['mode']
     wc = _wave(sizes.get('Lc2', sizes.get('L2', 2)))
-    wr = _wave(sizes.get('Lr2', 1), 'r') if cfg.get('waveform') == 'tuple4' else wc
+    wr = _wave(sizes.get('Lr2', 1), 'r') if cfg.get('waveform') in ('tuple4', 'tuple4col') else wc
     J = _sz(sizes, 'J', 1, 1, 3)
     Bn, C = _sz(sizes, 'B', 1, 1, 2), _sz(sizes, 'C', 1, 1, 2)
     m = _mode(mode)
@@ -127,7 +129,7 @@ def check_dwt_inverse(cfg, sizes, rnd):
     from pytorch_wavelets.dwt.transform2d import DWTInverse
     dim, mode = cfg['dim'], cfg['mode']
     wc = _wave(sizes.get('Lc2', sizes.get('L2', 2)))
-    wr = _wave(sizes.get('Lr2', 1), 'r') if cfg.get('waveform') == 'tuple4' else wc
+    wr = _wave(sizes.get('Lr2', 1), 'r') if cfg.get('waveform') in ('tuple4', 'tuple4col') else wc
     J = _sz(sizes, 'J', 1, 1, 3)
     Bn, C = _sz(sizes, 'B', 1, 1, 2), _sz(sizes, 'C', 1, 1, 2)
     m = _mode(mode)
